@@ -57,6 +57,18 @@ claimed["C18"] = (
     "rustc's expansion/type checking of the emitted tokens, serde's derive and serde_json are trusted (modelled by ser_* "
     "in SaveLoad/DeriveCodec.v), tied only by running the generated crates.", "5.C18")
 ENGINE["C18"] = "coq-derive"
+claimed["C11"] = (
+    "Theorems (Coq, closed under the global context): for every sequence of add/add_barrier the model of shred 0.16.1's "
+    "StagesBuilder yields stages whose groups are pairwise free of write/read and write/write intersections, with every "
+    "dependency in an earlier stage or earlier in the same group and every system exactly once; in every interleaving of "
+    "the groups of each stage every system runs exactly once, dependencies end before dependants start, no conflicting "
+    "systems overlap, and the borrow flags never refuse a borrow (also at single-borrow granularity); each storage "
+    "handle's fetch borrows exactly its reads()/writes(). Tie: the stage/group tree of the real DispatcherBuilder equals "
+    "the model's on every generated graph (exact); the real reads()/writes() and the borrow flags probed after a real "
+    "fetch equal the table; real dispatches on rayon pools of 1-32 threads are logged and every log is checked by the "
+    "extracted checker. Partial: shred's StagesBuilder, the World borrow flags and rayon live outside /repo and are "
+    "modelled and validated, not verified; thread-local systems and batch dispatchers are not modelled.", "5.C11")
+ENGINE["C11"] = "coq-dispatch"
 REASONS = {}
 
 checks = []
@@ -75,7 +87,9 @@ m = {
               "baseline_off_cmd": "cd /repo && cargo nextest run --workspace --no-fail-fast --tool-config-file "
                                   "pb:/w/lib/nextest.toml --profile pb --test-threads 8 --offline",
               "source_commits": [], "add_only": True},
-    "engines": [{"name": "coq-derive", "path": "coq/theories/SaveLoad", "serves_properties": ["C18"],
+    "engines": [{"name": "coq-dispatch", "path": "coq/theories/Dispatch", "serves_properties": ["C11"],
+                 "kind_free_text": "Coq model of shred's staging and borrow flags + instrumented real dispatch"},
+                {"name": "coq-derive", "path": "coq/theories/SaveLoad", "serves_properties": ["C18"],
                  "kind_free_text": "Coq model of the derive macros' output + generated Rust crates carrying the real derives"},
                 {"name": "coq-world", "path": "coq/theories", "serves_properties": sorted(p for p in claimed if p not in ENGINE),
                  "kind_free_text": "Coq development (lifecycle spec, faithful allocator/storage/world models, refinement, "
